@@ -24,6 +24,11 @@
            `second`: a second crash inside the compaction that the restart itself starts (same classes,
            relative to the restart's own calls); cont = receives after the restart (105: through the next
            compaction).
+   fault   a lower-layer call of the same window (same classes `at` as crash) returns an injected error ONCE and the
+           process goes on: fk = "error" (the call had no effect) | "after" (it took effect but reported an error;
+           the gate stores know both kinds for every mutating call); at = rmpartial: RemoveBlobs removes half of the
+           small meta blobs and fails.  Projection and client view right after the failed call, cont further uploads
+           (105: through the next compaction), a restart - index kept or wiped -, projection and client view again.
    tamper  target in ciphertext of a big / tiny blob, one-entry meta blob, packed meta blob; kind in single-bit
            flip at a position class of the age file (version byte, header text, header MAC, payload, last byte;
            "all" = every byte), truncation by 1 / to half / to nothing, extension by one byte, swap with another
@@ -34,8 +39,8 @@ EXTENDS Naturals, FiniteSets, Sequences, SequencesExt, TLC, Json
 CONSTANTS Tier,     \* "quick" | "thorough"
           Limit, Full   \* encrypt.SmallMetaCountLimit, encrypt.FullMetaBlobSize of the code under test
 
-VARIABLES kind, n, restarts, jitter, at, wipe, second, cont, target, tk, pos, raw
-gvars == <<kind, n, restarts, jitter, at, wipe, second, cont, target, tk, pos, raw>>
+VARIABLES kind, n, restarts, jitter, at, wipe, second, cont, target, tk, pos, raw, fk
+gvars == <<kind, n, restarts, jitter, at, wipe, second, cont, target, tk, pos, raw, fk>>
 
 Quick == Tier = "quick"
 HistLens == IF Quick THEN {105, 230} ELSE {105, 150, 205, 230, 320}
@@ -58,25 +63,35 @@ CrashPoints == {"w1", "w2", "w3", "w4", "w5", "m30", "m70", "e3", "e2", "e1", "e
 SecondOf(a) == IF a \in {"e1", "e2", "rmpartial", "m70"} THEN (IF Quick THEN {"", "e1", "e2"} ELSE {"", "e0", "e1", "e2", "e3", "m50", "w1", "w3"}) ELSE {""}
 ContOf(a, s) == IF s = "" /\ a \in {"e1", "e2", "w3", "rmpartial"} THEN {3, 105} ELSE {3}
 
+FaultKinds(a) == IF a = "rmpartial" THEN {"error"} ELSE {"error", "after"}
+FaultScns == IF Quick
+               THEN {[at |-> a, fk |-> "error", wipe |-> w, cont |-> 3] : a \in CrashPoints, w \in BOOLEAN}
+                    \cup {[at |-> a, fk |-> "error", wipe |-> TRUE, cont |-> 105] : a \in {"w4", "m30", "e2", "e1"}}
+                    \cup {[at |-> a, fk |-> "after", wipe |-> TRUE, cont |-> 3] : a \in {"w2", "w3", "w4", "e2", "e1"}}
+               ELSE {[at |-> a, fk |-> f, wipe |-> w, cont |-> c] : a \in CrashPoints, f \in {"error", "after"}, w \in BOOLEAN, c \in {3, 105}}
+FaultFamily == {s \in FaultScns : s.fk \in FaultKinds(s.at)}
+
 Targets == {"blob", "blobtiny", "metasingle", "metapacked"}
 Kinds == {"flip", "trunc1", "trunchalf", "trunc0", "extend", "swap", "xswap"}
 FlipPos(t) == {"version", "header", "mac", "body", "last"} \cup (IF ~Quick /\ t \in {"blobtiny", "metasingle", "blob"} THEN {"all"} ELSE {})
 
 Init ==
   \/ /\ kind = "long" /\ \E s \in LongScenarios : n = s.n /\ restarts = s.restarts /\ raw = s.raw
-     /\ wipe = FALSE /\ jitter = FALSE /\ at = "" /\ second = "" /\ cont = 0 /\ target = "" /\ tk = "" /\ pos = ""
+     /\ wipe = FALSE /\ jitter = FALSE /\ at = "" /\ second = "" /\ cont = 0 /\ target = "" /\ tk = "" /\ pos = "" /\ fk = ""
   \/ /\ kind = "hist" /\ n \in HistLens /\ restarts \in RestartSeqs(n) /\ wipe = FALSE /\ jitter \in BOOLEAN
-     /\ at = "" /\ second = "" /\ cont = 0 /\ target = "" /\ tk = "" /\ pos = "" /\ raw = FALSE
+     /\ at = "" /\ second = "" /\ cont = 0 /\ target = "" /\ tk = "" /\ pos = "" /\ raw = FALSE /\ fk = ""
   \/ /\ kind = "crash" /\ at \in CrashPoints /\ wipe \in BOOLEAN /\ second \in SecondOf(at) /\ cont \in ContOf(at, second)
-     /\ n = 0 /\ restarts = <<>> /\ jitter = FALSE /\ target = "" /\ tk = "" /\ pos = "" /\ raw = FALSE
+     /\ n = 0 /\ restarts = <<>> /\ jitter = FALSE /\ target = "" /\ tk = "" /\ pos = "" /\ raw = FALSE /\ fk = ""
+  \/ /\ kind = "fault" /\ \E s \in FaultFamily : at = s.at /\ fk = s.fk /\ wipe = s.wipe /\ cont = s.cont
+     /\ n = 0 /\ restarts = <<>> /\ jitter = FALSE /\ second = "" /\ target = "" /\ tk = "" /\ pos = "" /\ raw = FALSE
   \/ /\ kind = "tamper" /\ target \in Targets /\ tk \in Kinds /\ wipe \in BOOLEAN
      /\ pos \in (IF tk = "flip" THEN FlipPos(target) ELSE {"-"})
-     /\ n = 0 /\ restarts = <<>> /\ jitter = FALSE /\ at = "" /\ second = "" /\ cont = 0 /\ raw = FALSE
+     /\ n = 0 /\ restarts = <<>> /\ jitter = FALSE /\ at = "" /\ second = "" /\ cont = 0 /\ raw = FALSE /\ fk = ""
   \/ /\ kind = "tamper" /\ target = "metasingle" /\ tk = "forge" /\ pos \in {"own", "other"} /\ wipe \in BOOLEAN
-     /\ n = 0 /\ restarts = <<>> /\ jitter = FALSE /\ at = "" /\ second = "" /\ cont = 0 /\ raw = FALSE
+     /\ n = 0 /\ restarts = <<>> /\ jitter = FALSE /\ at = "" /\ second = "" /\ cont = 0 /\ raw = FALSE /\ fk = ""
 Next == UNCHANGED gvars
 Spec == Init /\ [][Next]_gvars
 
 Emit == PrintT(<<"SCN", ToJson([kind |-> kind, n |-> n, restarts |-> restarts, jitter |-> jitter, at |-> at, wipe |-> wipe, second |-> second,
-                                cont |-> cont, pre |-> Limit, target |-> target, tk |-> tk, pos |-> pos, raw |-> raw])>>)
+                                cont |-> cont, pre |-> Limit, target |-> target, tk |-> tk, pos |-> pos, raw |-> raw, fk |-> fk])>>)
 =============================================================================
